@@ -104,7 +104,9 @@ def _get_volume_frustum_cone(tree: Tree, *, accuracy: int) -> float:
         if accuracy >= 3:
             v -= sum(sphere.intersect(fc).get_volume() for fc in cones)
             v -= sum(s.intersect(fc).get_volume() for s, fc in zip(children, cones))
-            v += sum(s.intersect(sphere).get_volume() for s in children)
+            # The overlap of the two end spheres lies inside the frustum
+            # cone, so it has been counted three times and removed twice
+            # by now: it must not be added back.
 
         if accuracy >= 5:
             v -= sum(
